@@ -592,7 +592,14 @@ func (e *EdgeQuery) initQueue() {
 	if len(e.indexCovering) == 0 {
 		// We delay iterator initialization until now to make queries on very
 		// small indexes a bit faster (i.e., where brute force is used).
-		e.iter = NewShapeIndexIterator(e.index)
+		//
+		// The iterator is used (LocatePoint below) before anything else has
+		// forced pending index updates to be applied, so it must be created
+		// through Iterator(), which applies them: an iterator created with
+		// NewShapeIndexIterator(index) without a position does not, and would
+		// read an index that is not built yet or, worse, that another
+		// goroutine is building at that moment.
+		e.iter = e.index.Iterator()
 	}
 
 	// Optimization: if the user is searching for just the closest edge, and the
